@@ -601,15 +601,15 @@ impl fmt::Display for CellBuffer {
 
 impl From<&str> for CellBuffer {
     fn from(input: &str) -> Self {
-        let css_styles = if let Some(loc) = input.find("# Legend:") {
-            if let Ok(css_styles) = parser::parse_css_legend(&input[loc..]) {
-                Some((loc, css_styles))
-            } else {
-                None
-            }
-        } else {
-            None
-        };
+        // the legend starts at the first "# Legend:" from which a legend parses: an earlier
+        // occurrence inside a sentence or a quoted string is part of the drawing and must not
+        // hide the real header further down
+        let css_styles =
+            input.match_indices("# Legend:").find_map(|(loc, _)| {
+                parser::parse_css_legend(&input[loc..])
+                    .ok()
+                    .map(|css_styles| (loc, css_styles))
+            });
         #[cfg(feature = "verif-trace")]
         crate::verif::emit("legend", || {
             format!(
